@@ -78,7 +78,10 @@ def shortestDigits (a : Nat) (e : Nat) : List Char × Int := Id.run do
     if ok1 || ok2 then
       let pick :=
         if ok1 && ok2 then
-          (if ratLe (ratDist c1 v) (ratDist c2 v) then f else f + 1)
+          -- nearest; an exact tie goes to the even digit (dtoa's round-half-even)
+          (if ratLt (ratDist c1 v) (ratDist c2 v) then f
+           else if ratLt (ratDist c2 v) (ratDist c1 v) then f + 1
+           else if f % 2 = 0 then f else f + 1)
         else if ok1 then f else f + 1
       -- strip trailing zeros; adjust the decimal point when f+1 rolled over
       let ds := Nat.toDigits 10 pick
